@@ -619,6 +619,9 @@ func runC09(c *vh.Ctx) {
 	// ---- like-patterns given as component lists (c09_patterns.go) ----
 	c09PatternComponents(c, addDecode)
 
+	// ---- the example of the cross-format theorems, replayed; model pipelines vs Go pipelines (c09_cross.go) ----
+	c09CrossWitnesses(c, b)
+
 	nPol := c.N(2500, 100000)
 	for i := 0; i < nPol; i++ {
 		p := g.PolicyC09(1 + c.Rng.Intn(4))
@@ -631,6 +634,11 @@ func runC09(c *vh.Ctx) {
 		}
 		want := c09Show(p, false)
 		c.Res.OracleChecks++
+
+		// (0) the MODEL's text -> JSON -> text and JSON -> text -> JSON pipelines against Go's, stage by stage (c09_cross.go)
+		if i%c.N(1, 4) == 0 { // every policy in the quick tier, every fourth of the 100 000 of the thorough tier
+			c09Cross(c, b, p, "gen")
+		}
 
 		// (a) JSON round trip
 		jb, err := c09MarshalJSON(p)
